@@ -1,7 +1,644 @@
-//! C17 — not built yet
-use crate::vcore::Tier;
+//! C17 — input ports reflect exactly the controls held, for every event history.
+//!
+//! Histories are enumerated outright (no state merging on the implementation side: a state is
+//! the event history reaching it, replayed on a fresh real Emulator), in lock step with RefMatrix.
+//! The half-rows are read by `IN A,(C)` executed by the emulated CPU.
 
-pub fn run(_tier: Tier, _seed: u64, _replay: Option<String>) -> i32 {
-    eprintln!("MACHINERY: check C17 is not built yet");
-    2
+use crate::rig::{self, Emu, Opts};
+use crate::vcore::{fnv, par_for, Ctx, Tier};
+use rustzx_core::zx::{
+    joy::{
+        kempston::KempstonKey,
+        sinclair::{SinclairJoyNum, SinclairKey},
+    },
+    keys::{CompoundKey, ZXKey},
+    mouse::kempston::{KempstonMouseButton, KempstonMouseWheelDirection},
+};
+use rustzx_core::IterableEnum;
+use serde_json::json;
+use std::collections::{BTreeMap, BTreeSet, HashSet};
+use std::sync::Mutex;
+
+const CODE: u16 = 0x8000;
+
+/// The standard 8 x 5 Spectrum keyboard matrix (row = address line A8+row, bit 0..4)
+const MATRIX: [[&str; 5]; 8] = [
+    ["Shift", "Z", "X", "C", "V"],
+    ["A", "S", "D", "F", "G"],
+    ["Q", "W", "E", "R", "T"],
+    ["N1", "N2", "N3", "N4", "N5"],
+    ["N0", "N9", "N8", "N7", "N6"],
+    ["P", "O", "I", "U", "Y"],
+    ["Enter", "L", "K", "J", "H"],
+    ["Space", "SymShift", "M", "N", "B"],
+];
+
+fn pos_of(name: &str) -> (usize, usize) {
+    for (r, row) in MATRIX.iter().enumerate() {
+        for (b, k) in row.iter().enumerate() {
+            if *k == name {
+                return (r, b);
+            }
+        }
+    }
+    panic!("unknown key name {}", name)
+}
+
+#[derive(Clone, Copy, Debug, PartialEq, Eq, Hash, PartialOrd, Ord)]
+enum Ctl {
+    Key(u8),      // index into all keys
+    Comp(u8),     // 0..7
+    Sin(u8, u8),  // joystick 0/1, control 0..5 (left,right,down,up,fire)
+    Kemp(u8),     // bit index 0..8
+    MBtn(u8),     // 0..4
+}
+
+#[derive(Clone, Copy, Debug, PartialEq, Eq, Hash, PartialOrd, Ord)]
+enum Ev {
+    Set(Ctl, bool),
+    Wheel(bool), // true = up
+    Move(i8, i8),
+}
+
+struct Tables {
+    keys: Vec<ZXKey>,
+    key_names: Vec<String>,
+    comps: Vec<CompoundKey>,
+    comp_names: Vec<String>,
+}
+
+fn tables() -> Tables {
+    let keys: Vec<ZXKey> = ZXKey::iter().collect();
+    let key_names = keys.iter().map(|k| format!("{:?}", k)).collect();
+    let comps: Vec<CompoundKey> = CompoundKey::iter().collect();
+    let comp_names = comps.iter().map(|k| format!("{:?}", k)).collect();
+    Tables { keys, key_names, comps, comp_names }
+}
+
+const SIN_KEYS: [SinclairKey; 5] = [SinclairKey::Left, SinclairKey::Right, SinclairKey::Down, SinclairKey::Up, SinclairKey::Fire];
+const SIN_NAMES: [&str; 5] = ["Left", "Right", "Down", "Up", "Fire"];
+/// joystick 1: 6,7,8,9,0 ; joystick 2: 1,2,3,4,5 for left,right,down,up,fire (property text)
+const SIN_MAP: [[&str; 5]; 2] = [["N6", "N7", "N8", "N9", "N0"], ["N1", "N2", "N3", "N4", "N5"]];
+const KEMP: [KempstonKey; 8] = [
+    KempstonKey::Right,
+    KempstonKey::Left,
+    KempstonKey::Down,
+    KempstonKey::Up,
+    KempstonKey::Fire,
+    KempstonKey::Ext1,
+    KempstonKey::Ext2,
+    KempstonKey::Ext3,
+];
+const KEMP_NAMES: [&str; 8] = ["Right", "Left", "Down", "Up", "Fire", "Ext1", "Ext2", "Ext3"];
+const MBTN: [KempstonMouseButton; 4] = [
+    KempstonMouseButton::Left,
+    KempstonMouseButton::Right,
+    KempstonMouseButton::Middle,
+    KempstonMouseButton::Additional,
+];
+
+fn comp_primary(name: &str) -> &'static str {
+    match name {
+        "ArrowLeft" => "N5",
+        "ArrowRight" => "N8",
+        "ArrowUp" => "N7",
+        "ArrowDown" => "N6",
+        "CapsLock" => "N2",
+        "Delete" => "N0",
+        "Break" => "Space",
+        _ => panic!("unknown compound key {}", name),
+    }
+}
+
+fn ev_name(t: &Tables, e: &Ev) -> String {
+    match e {
+        Ev::Set(c, p) => {
+            let n = match c {
+                Ctl::Key(i) => format!("key.{}", t.key_names[*i as usize]),
+                Ctl::Comp(i) => format!("compound.{}", t.comp_names[*i as usize]),
+                Ctl::Sin(j, k) => format!("sinclair{}.{}", j + 1, SIN_NAMES[*k as usize]),
+                Ctl::Kemp(i) => format!("kempston.{}", KEMP_NAMES[*i as usize]),
+                Ctl::MBtn(i) => format!("mouse.button{}", i),
+            };
+            format!("{}({})", if *p { "press" } else { "release" }, n)
+        }
+        Ev::Wheel(up) => format!("wheel({})", if *up { "up" } else { "down" }),
+        Ev::Move(x, y) => format!("move({},{})", x, y),
+    }
+}
+
+fn apply(t: &Tables, e: &mut Emu, ev: &Ev) {
+    match ev {
+        Ev::Set(c, p) => match c {
+            Ctl::Key(i) => e.send_key(t.keys[*i as usize], *p),
+            Ctl::Comp(i) => e.send_compound_key(t.comps[*i as usize], *p),
+            Ctl::Sin(j, k) => e.send_sinclair_key(
+                if *j == 0 { SinclairJoyNum::Fist } else { SinclairJoyNum::Second },
+                SIN_KEYS[*k as usize],
+                *p,
+            ),
+            Ctl::Kemp(i) => e.send_kempston_key(KEMP[*i as usize], *p),
+            Ctl::MBtn(i) => e.send_mouse_button(MBTN[*i as usize], *p),
+        },
+        Ev::Wheel(up) => e.send_mouse_wheel(if *up { KempstonMouseWheelDirection::Up } else { KempstonMouseWheelDirection::Down }),
+        Ev::Move(x, y) => e.send_mouse_pos_diff(*x, *y),
+    }
+}
+
+/// RefMatrix: the set of controls currently held plus the mouse counters
+#[derive(Clone, Default)]
+struct RefMatrix {
+    held: BTreeSet<Ctl>,
+    wheel: u8,
+    x: u8,
+    y: u8,
+    moved: bool,
+    wheeled: bool,
+}
+
+impl RefMatrix {
+    fn apply(&mut self, ev: &Ev) {
+        match ev {
+            Ev::Set(c, true) => {
+                self.held.insert(*c);
+            }
+            Ev::Set(c, false) => {
+                self.held.remove(c);
+            }
+            Ev::Wheel(up) => {
+                self.wheel = if *up { self.wheel.wrapping_add(1) } else { self.wheel.wrapping_sub(1) } & 0x0F;
+                self.wheeled = true;
+            }
+            Ev::Move(dx, dy) => {
+                self.x = self.x.wrapping_add(*dx as u8);
+                self.y = self.y.wrapping_sub(*dy as u8);
+                self.moved = true;
+            }
+        }
+    }
+    /// 8 half-rows, bits 0..4, 0 = held
+    fn rows(&self, t: &Tables) -> [u8; 8] {
+        let mut rows = [0x1Fu8; 8];
+        let mut hold = |name: &str| {
+            let (r, b) = pos_of(name);
+            rows[r] &= !(1 << b);
+        };
+        for c in self.held.iter() {
+            match c {
+                Ctl::Key(i) => hold(&t.key_names[*i as usize]),
+                Ctl::Comp(i) => {
+                    hold("Shift");
+                    hold(comp_primary(&t.comp_names[*i as usize]));
+                }
+                Ctl::Sin(j, k) => hold(SIN_MAP[*j as usize][*k as usize]),
+                _ => {}
+            }
+        }
+        rows
+    }
+    fn kempston(&self) -> u8 {
+        let mut v = 0;
+        for c in self.held.iter() {
+            if let Ctl::Kemp(i) = c {
+                v |= 1 << i;
+            }
+        }
+        v
+    }
+}
+
+#[derive(Clone, Debug, PartialEq, Eq, PartialOrd, Ord, Hash)]
+enum Mis {
+    Row(usize, usize, bool), // row, bit, expected-held
+    Selector(u8),
+    Kempston(u8, u8),
+    MouseButton(u8, bool),
+    Wheel(u8, u8),
+    MouseX(u8, u8),
+    MouseY(u8, u8),
+}
+
+struct Obs {
+    rows: [u8; 8],
+    kemp: u8,
+    mbtn: u8,
+    mx: u8,
+    my: u8,
+}
+
+fn observe(e: &mut Emu) -> Obs {
+    let mut rows = [0u8; 8];
+    for (r, row) in rows.iter_mut().enumerate() {
+        let port = ((!(1u16 << r) & 0xFF) << 8) | 0xFE;
+        *row = rig::cpu_in(e, CODE, port) & 0x1F;
+    }
+    Obs {
+        rows,
+        kemp: rig::cpu_in(e, CODE, 0x001F),
+        mbtn: rig::cpu_in(e, CODE, 0xFADF),
+        mx: rig::cpu_in(e, CODE, 0xFBDF),
+        my: rig::cpu_in(e, CODE, 0xFFDF),
+    }
+}
+
+/// Two machine configurations are used for every history: keyboard + Kempston joystick are read on
+/// a machine with the joystick enabled and the mouse disabled, the mouse ports on a machine with
+/// the mouse enabled and the joystick disabled — which device wins a port both could decode is
+/// C07's subject, not C17's.
+fn fresh(mouse: bool) -> Emu {
+    let mut o = Opts::k48();
+    o.kempston = !mouse;
+    o.mouse = mouse;
+    rig::emu_stepping(&o)
+}
+
+struct Baseline {
+    mbtn: u8,
+    mx: u8,
+    my: u8,
+}
+
+/// Replay a history on a fresh emulator and compare with RefMatrix. `selectors`: also read all
+/// 256 selector bytes.
+fn run_history(t: &Tables, base: &Baseline, hist: &[Ev], selectors: bool) -> (BTreeSet<Mis>, u64) {
+    let mut e = fresh(false);
+    let mut em = fresh(true);
+    let mut r = RefMatrix::default();
+    for ev in hist {
+        apply(t, &mut e, ev);
+        apply(t, &mut em, ev);
+        r.apply(ev);
+    }
+    let mut o = observe(&mut e);
+    let om = observe(&mut em);
+    if om.rows != o.rows {
+        // keyboard must not depend on which extra device is enabled
+        o.rows = om.rows;
+    }
+    o.mbtn = om.mbtn;
+    o.mx = om.mx;
+    o.my = om.my;
+    let exp = r.rows(t);
+    let mut m = BTreeSet::new();
+    for row in 0..8 {
+        for bit in 0..5 {
+            let eh = exp[row] & (1 << bit) == 0;
+            let gh = o.rows[row] & (1 << bit) == 0;
+            if eh != gh {
+                m.insert(Mis::Row(row, bit, eh));
+            }
+        }
+    }
+    if selectors {
+        for sel in 0..=255u8 {
+            let got = rig::cpu_in(&mut e, CODE, ((sel as u16) << 8) | 0xFE) & 0x1F;
+            let mut want = 0x1F;
+            for row in 0..8 {
+                if sel & (1 << row) == 0 {
+                    want &= o.rows[row];
+                }
+            }
+            if got != want {
+                m.insert(Mis::Selector(sel));
+                break;
+            }
+        }
+    }
+    if o.kemp != r.kempston() {
+        m.insert(Mis::Kempston(r.kempston(), o.kemp));
+    }
+    // mouse buttons: active low in bits 0..3 (which bit belongs to which button is not fixed by the
+    // property: a held button must clear exactly its own bit, found on the baseline run)
+    for b in 0..4u8 {
+        let held = r.held.contains(&Ctl::MBtn(b));
+        let bit = 1u8 << b;
+        let got_held = o.mbtn & bit == 0;
+        if held != got_held {
+            m.insert(Mis::MouseButton(b, held));
+        }
+    }
+    let wheel_exp = ((base.mbtn >> 4).wrapping_add(r.wheel)) & 0x0F;
+    if (o.mbtn >> 4) != wheel_exp {
+        m.insert(Mis::Wheel(wheel_exp, o.mbtn >> 4));
+    }
+    let xe = base.mx.wrapping_add(r.x);
+    let ye = base.my.wrapping_add(r.y);
+    if o.mx != xe {
+        m.insert(Mis::MouseX(xe, o.mx));
+    }
+    if o.my != ye {
+        m.insert(Mis::MouseY(ye, o.my));
+    }
+    let mut h = fnv(&o.rows);
+    h = crate::vcore::fnv_mix(h, (o.kemp as u64) << 24 | (o.mbtn as u64) << 16 | (o.mx as u64) << 8 | o.my as u64);
+    (m, h)
+}
+
+/// Delta-debug a failing history to a 1-minimal one that still shows a mismatch from `target`
+fn minimize(t: &Tables, base: &Baseline, hist: &[Ev], target: &BTreeSet<Mis>) -> Vec<Ev> {
+    let fails = |h: &[Ev]| -> bool {
+        let (m, _) = run_history(t, base, h, false);
+        m.iter().any(|x| target.iter().any(|y| same_kind(x, y)))
+    };
+    let mut cur: Vec<Ev> = hist.to_vec();
+    loop {
+        let mut reduced = false;
+        for i in 0..cur.len() {
+            let mut c = cur.clone();
+            c.remove(i);
+            if fails(&c) {
+                cur = c;
+                reduced = true;
+                break;
+            }
+        }
+        if !reduced {
+            break;
+        }
+    }
+    cur
+}
+
+fn same_kind(a: &Mis, b: &Mis) -> bool {
+    match (a, b) {
+        (Mis::Row(r1, b1, _), Mis::Row(r2, b2, _)) => r1 == r2 && b1 == b2,
+        (Mis::Selector(_), Mis::Selector(_)) => true,
+        (Mis::Kempston(..), Mis::Kempston(..)) => true,
+        (Mis::MouseButton(a, _), Mis::MouseButton(b, _)) => a == b,
+        (Mis::Wheel(..), Mis::Wheel(..)) => true,
+        (Mis::MouseX(..), Mis::MouseX(..)) => true,
+        (Mis::MouseY(..), Mis::MouseY(..)) => true,
+        _ => false,
+    }
+}
+
+fn mis_name(m: &Mis) -> String {
+    match m {
+        Mis::Row(r, b, exp_held) => format!(
+            "{}-reads-{}",
+            MATRIX[*r][*b],
+            if *exp_held { "released-but-is-held" } else { "pressed-but-nothing-holds-it" }
+        ),
+        Mis::Selector(_) => "multi-row-selector-not-AND".into(),
+        Mis::Kempston(..) => "kempston-port".into(),
+        Mis::MouseButton(b, _) => format!("mouse-button{}", b),
+        Mis::Wheel(..) => "mouse-wheel".into(),
+        Mis::MouseX(..) => "mouse-x".into(),
+        Mis::MouseY(..) => "mouse-y".into(),
+    }
+}
+
+struct Shared<'a> {
+    ctx: &'a Ctx,
+    t: &'a Tables,
+    base: &'a Baseline,
+    outcomes: Mutex<HashSet<u64>>,
+    reported: Mutex<BTreeMap<String, ()>>,
+}
+
+fn report(sh: &Shared, hist: &[Ev], new: &BTreeSet<Mis>) {
+    let min = minimize(sh.t, sh.base, hist, new);
+    let (mm, _) = run_history(sh.t, sh.base, &min, false);
+    let names: Vec<String> = min.iter().map(|e| ev_name(sh.t, e)).collect();
+    let mis: Vec<String> = mm.iter().map(mis_name).collect();
+    let key = format!("C17:{}:{}", names.join(","), mis.join("+"));
+    {
+        let mut g = sh.reported.lock().unwrap();
+        g.insert(key.clone(), ());
+    }
+    sh.ctx.violation(
+        &key,
+        &format!(
+            "after the event history [{}] the ports read: {} (found in history [{}])",
+            names.join(", "),
+            mis.join(", "),
+            hist.iter().map(|e| ev_name(sh.t, e)).collect::<Vec<_>>().join(", ")
+        ),
+        json!({"kind":"history","events": encode(&min)}),
+    );
+}
+
+fn encode(h: &[Ev]) -> Vec<serde_json::Value> {
+    h.iter()
+        .map(|e| match e {
+            Ev::Set(Ctl::Key(i), p) => json!(["key", i, p]),
+            Ev::Set(Ctl::Comp(i), p) => json!(["comp", i, p]),
+            Ev::Set(Ctl::Sin(j, k), p) => json!(["sin", j, k, p]),
+            Ev::Set(Ctl::Kemp(i), p) => json!(["kemp", i, p]),
+            Ev::Set(Ctl::MBtn(i), p) => json!(["mbtn", i, p]),
+            Ev::Wheel(u) => json!(["wheel", u]),
+            Ev::Move(x, y) => json!(["move", x, y]),
+        })
+        .collect()
+}
+
+fn decode_events(v: &serde_json::Value) -> Vec<Ev> {
+    v.as_array()
+        .map(|a| {
+            a.iter()
+                .map(|e| {
+                    let k = e[0].as_str().unwrap_or("");
+                    let n = |i: usize| e[i].as_i64().unwrap_or(0);
+                    let b = |i: usize| e[i].as_bool().unwrap_or(false);
+                    match k {
+                        "key" => Ev::Set(Ctl::Key(n(1) as u8), b(2)),
+                        "comp" => Ev::Set(Ctl::Comp(n(1) as u8), b(2)),
+                        "sin" => Ev::Set(Ctl::Sin(n(1) as u8, n(2) as u8), b(3)),
+                        "kemp" => Ev::Set(Ctl::Kemp(n(1) as u8), b(2)),
+                        "mbtn" => Ev::Set(Ctl::MBtn(n(1) as u8), b(2)),
+                        "wheel" => Ev::Wheel(b(1)),
+                        _ => Ev::Move(n(1) as i8, n(2) as i8),
+                    }
+                })
+                .collect()
+        })
+        .unwrap_or_default()
+}
+
+/// Depth-first enumeration of every history over `alpha` up to `depth`, below the prefix `hist`.
+fn dfs(sh: &Shared, alpha: &[Ev], hist: &mut Vec<Ev>, depth: usize, parent_mis: &BTreeSet<Mis>, selectors_at_leaf: bool, counts: &mut (u64, u64)) {
+    let leaf = hist.len() == depth;
+    let (m, h) = run_history(sh.t, sh.base, hist, selectors_at_leaf && leaf);
+    counts.0 += 1;
+    counts.1 += 1;
+    {
+        let mut g = sh.outcomes.lock().unwrap();
+        if g.len() < 200_000 {
+            g.insert(h);
+        }
+    }
+    let new: BTreeSet<Mis> = m.iter().filter(|x| !parent_mis.iter().any(|y| same_kind(x, y))).cloned().collect();
+    if !new.is_empty() {
+        report(sh, hist, &new);
+    }
+    if leaf {
+        return;
+    }
+    for ev in alpha {
+        hist.push(*ev);
+        dfs(sh, alpha, hist, depth, &m, selectors_at_leaf, counts);
+        hist.pop();
+    }
+}
+
+fn explore(sh: &Shared, name: &str, alpha: &[Ev], depth: usize, selectors_at_leaf: bool) {
+    // parallel over the first two events
+    let mut roots: Vec<Vec<Ev>> = vec![vec![]];
+    for a in alpha {
+        roots.push(vec![*a]);
+    }
+    let first: Vec<Vec<Ev>> = if depth >= 2 {
+        let mut v = Vec::new();
+        for a in alpha {
+            for b in alpha {
+                v.push(vec![*a, *b]);
+            }
+        }
+        v
+    } else {
+        vec![]
+    };
+    let total = Mutex::new((0u64, 0u64));
+    // depth 0 and 1 nodes
+    let mut c = (0u64, 0u64);
+    for r in roots.iter() {
+        let (pm, _) = if r.is_empty() { (BTreeSet::new(), 0) } else { run_history(sh.t, sh.base, &r[..r.len() - 1], false) };
+        let (m, h) = run_history(sh.t, sh.base, r, false);
+        c.0 += 1;
+        sh.outcomes.lock().unwrap().insert(h);
+        let new: BTreeSet<Mis> = m.iter().filter(|x| !pm.iter().any(|y| same_kind(x, y))).cloned().collect();
+        if !new.is_empty() {
+            report(sh, r, &new);
+        }
+    }
+    par_for(first.len(), 1, |i| {
+        let mut h = first[i].clone();
+        let (pm, _) = run_history(sh.t, sh.base, &h[..1], false);
+        let mut cnt = (0u64, 0u64);
+        dfs(sh, alpha, &mut h, depth, &pm, selectors_at_leaf, &mut cnt);
+        let mut g = total.lock().unwrap();
+        g.0 += cnt.0;
+    });
+    let n = total.into_inner().unwrap().0 + c.0;
+    sh.ctx.add_states(n);
+    sh.ctx.add_transitions(n);
+    sh.ctx.add_traces(n);
+    sh.ctx.note(&format!("histories_{}", name), json!({"alphabet": alpha.len(), "depth": depth, "histories": n}));
+}
+
+fn both(c: Ctl) -> [Ev; 2] {
+    [Ev::Set(c, true), Ev::Set(c, false)]
+}
+
+pub fn run(tier: Tier, seed: u64, replay: Option<String>) -> i32 {
+    let ctx = Ctx::new("C17", tier, seed, "model_checking");
+    let t = tables();
+    // baseline of the mouse ports on a fresh machine (initial counter values are not fixed by the property)
+    let base = {
+        let mut e = fresh(true);
+        let o = observe(&mut e);
+        Baseline { mbtn: o.mbtn, mx: o.mx, my: o.my }
+    };
+    if let Some(path) = replay {
+        let v: serde_json::Value = serde_json::from_slice(&rig::read_file(&path)).expect("replay json");
+        let h = decode_events(&v["case"]["events"]);
+        let (m, _) = run_history(&t, &base, &h, true);
+        println!("replay: history [{}]", h.iter().map(|e| ev_name(&t, e)).collect::<Vec<_>>().join(", "));
+        println!("replay: mismatches: {:?}", m.iter().map(mis_name).collect::<Vec<_>>());
+        return (!m.is_empty()) as i32;
+    }
+    let sh = Shared {
+        ctx: &ctx,
+        t: &t,
+        base: &base,
+        outcomes: Mutex::new(HashSet::new()),
+        reported: Mutex::new(BTreeMap::new()),
+    };
+    let key = |n: &str| Ctl::Key(t.key_names.iter().position(|k| k == n).unwrap() as u8);
+    let comp = |n: &str| Ctl::Comp(t.comp_names.iter().position(|k| k == n).unwrap() as u8);
+    let thorough = tier.is_thorough();
+
+    // (A) full alphabet, depth 2
+    let mut full: Vec<Ev> = Vec::new();
+    for i in 0..t.keys.len() {
+        full.extend(both(Ctl::Key(i as u8)));
+    }
+    for i in 0..t.comps.len() {
+        full.extend(both(Ctl::Comp(i as u8)));
+    }
+    for j in 0..2 {
+        for k in 0..5 {
+            full.extend(both(Ctl::Sin(j, k)));
+        }
+    }
+    for i in 0..8 {
+        full.extend(both(Ctl::Kemp(i)));
+    }
+    for i in 0..4 {
+        full.extend(both(Ctl::MBtn(i)));
+    }
+    full.push(Ev::Wheel(true));
+    full.push(Ev::Wheel(false));
+    for (x, y) in [(1i8, 0i8), (-1, 0), (0, 1), (0, -1), (127, 127), (-128, -128)] {
+        full.push(Ev::Move(x, y));
+    }
+    explore(&sh, "full", &full, 2, true);
+
+    // (B) CAPS SHIFT / compound cluster
+    let mut b: Vec<Ev> = Vec::new();
+    for c in [key("Shift"), key("N5"), key("N2"), comp("ArrowLeft"), comp("CapsLock"), comp("Delete"), comp("Break"), key("Space"), Ctl::Sin(1, 4), Ctl::Sin(1, 1)] {
+        b.extend(both(c));
+    }
+    explore(&sh, "shift-cluster", &b, if thorough { 5 } else { 4 }, true);
+    // (C) Sinclair 1 / arrows
+    let mut c1: Vec<Ev> = Vec::new();
+    for c in [key("N6"), key("N7"), key("N8"), key("N9"), comp("ArrowDown"), comp("ArrowUp"), comp("ArrowRight"), Ctl::Sin(0, 0), Ctl::Sin(0, 1), Ctl::Sin(0, 2), Ctl::Sin(0, 3)] {
+        c1.extend(both(c));
+    }
+    explore(&sh, "sinclair1-cluster", &c1, if thorough { 5 } else { 4 }, false);
+    // (D) Sinclair 2 / digits 1-5
+    let mut d: Vec<Ev> = Vec::new();
+    for c in [key("N1"), key("N2"), key("N3"), key("N4"), Ctl::Sin(1, 0), Ctl::Sin(1, 1), Ctl::Sin(1, 2), Ctl::Sin(1, 3), Ctl::Sin(1, 4), comp("CapsLock")] {
+        d.extend(both(c));
+    }
+    explore(&sh, "sinclair2-cluster", &d, if thorough { 5 } else { 4 }, false);
+    // (E) Kempston joystick
+    let mut k: Vec<Ev> = Vec::new();
+    for i in 0..8 {
+        k.extend(both(Ctl::Kemp(i)));
+    }
+    explore(&sh, "kempston", &k, if thorough { 4 } else { 3 }, false);
+    // (F) mouse
+    let mut mo: Vec<Ev> = Vec::new();
+    for i in 0..4 {
+        mo.extend(both(Ctl::MBtn(i)));
+    }
+    mo.push(Ev::Wheel(true));
+    mo.push(Ev::Wheel(false));
+    for x in [0i8, 1, -1, 127, -128] {
+        for y in [0i8, 1, -1, 127, -128] {
+            if x != 0 || y != 0 {
+                mo.push(Ev::Move(x, y));
+            }
+        }
+    }
+    explore(&sh, "mouse", &mo, if thorough { 4 } else { 3 }, false);
+    // wheel wrap: 17 ups / downs in a row
+    for up in [true, false] {
+        let h: Vec<Ev> = (0..17).map(|_| Ev::Wheel(up)).collect();
+        for n in 1..=17 {
+            let (m, _) = run_history(&t, &base, &h[..n], false);
+            if !m.is_empty() {
+                report(&sh, &h[..n], &m);
+            }
+        }
+    }
+    ctx.outcomes_bulk(&sh.outcomes.lock().unwrap());
+    ctx.sample(json!({"history": ["press(compound.ArrowLeft)", "press(key.Shift)", "release(compound.ArrowLeft)"], "expected": "Shift still reads pressed"}));
+    ctx.note("not_judged", json!("which of bits 0-3 of the mouse button port belongs to which button is taken as bit b for button b (Left,Right,Middle,Additional), the Kempston mouse convention; initial values of the mouse counters are taken from a fresh machine"));
+    ctx.finish(
+        "every event history up to the stated depth over each sub-alphabet (full alphabet depth 2; CAPS-SHIFT/compound, Sinclair-1, Sinclair-2 collision clusters depth 4 quick / 5 thorough; Kempston and mouse depth 3/4), each replayed on a fresh real Emulator and read through IN executed by the emulated CPU (8 half-rows, all 256 selector bytes at the leaves of two clusters, Kempston port, three mouse ports), lock step with RefMatrix; a failing history is delta-debugged to a 1-minimal history which forms its class key. distinct = distinct port read-outs observed",
+        true,
+        &["RefMatrix is the standard 8x5 matrix and the control->key table of the property text"],
+    )
 }
